@@ -152,7 +152,8 @@ def run_agm(pid, tier, seed, fams, mutants, rule, assumptions, sample=None, repl
     for tid in sorted(set(by_id) - accepted):
         why = mirror(by_id[tid], exp_by_id[tid])
         if why is None:
-            raise vlib.MachineryError("TLC rejected program %d but the Python mirror accepts it" % tid)
+            vlib.reconcile("program %d" % tid, False, True)
+            why = vlib.UNNAMED
         e = exp_by_id[tid]
         verdict.violation({"family": e["family"], "depth": e["depth"], "prog": e["prog"], "variant": e["variant"]},
                           {"reason": why, "observed": by_id[tid]["obs"], "meaning": e["den"], "machine": e["result"],
